@@ -332,6 +332,8 @@ pub struct World {
     pub now_ms: u64,
     /// every message the server sent to a connected worker since the last `take_sent`
     pub sent: Vec<(u32, ToWorkerMessage)>,
+    /// RetractResponse messages emitted by workers since the last drain: (worker, retracted ids)
+    pub gave_back: Vec<(u32, Vec<TaskId>)>,
     _tmp: tempfile::TempDir,
 }
 
@@ -407,6 +409,7 @@ impl World {
             epoch: Instant::now(),
             now_ms: 0,
             sent: Vec::new(),
+            gave_back: Vec::new(),
             _tmp: tmp,
         }
     }
@@ -463,6 +466,9 @@ impl World {
     pub fn pump_worker_messages(&mut self) {
         for w in self.workers.values_mut() {
             for m in w.vw.drain_messages() {
+                if let FromWorkerMessage::RetractResponse(r) = &m {
+                    self.gave_back.push((w.id, r.retracted.clone()));
+                }
                 w.to_server.push_back(m);
             }
         }
